@@ -224,9 +224,27 @@ def exhaustive_single(tier):
                 yield mk("2a", ["merge3", "weave", "lca"][k % 3], t(ib), t(it), t(io), tag="single")
 
 
+def exhaustive_single_criss(tier):
+    """Single-entry triples on criss-cross histories whose LCAs equal BASE (_entries_lca on law-shaped entries)."""
+    ctx = [E(1, 0, "x", "d"), E(2, 0, "y", "d")]
+    st = single_entry_states()
+    n = 7 if tier == "quick" else len(st)
+    k = 0
+    for ib in range(n):
+        for io in range(n):
+            for it in range(n):
+                if not (it == ib or ((io == ib or io == it) and (ib + io + it) % 3 == 0)
+                        or (tier != "quick" and (ib + 2 * io + 3 * it) % 7 == 0)):
+                    continue
+                k += 1
+                t = lambda i: ctx + ([st[i]] if st[i] else [])
+                yield mk("2a", ["merge3", "weave", "lca"][k % 3], t(ib), t(it), t(io), lcas=[t(ib), t(ib)], tag="xsingle")
+
+
 def cases(rng, tier):
     quick = tier == "quick"
     yield from exhaustive_single(tier)
+    yield from exhaustive_single_criss(tier)
     fids = [1, 2, 3, 4, 5, 6]
     nrand = 30 if quick else 150
     for i in range(nrand * 6):
@@ -273,7 +291,7 @@ def cases(rng, tier):
             this, other = edit_git(rng, base, gf, rng.randint(1, 3)), edit_git(rng, base, gf, rng.randint(1, 3))
         yield mk("git", "merge3", base, this, other, tag="g" + law)
     # criss-cross histories: Merge3Merger runs _entries_lca / _lca_multi_way
-    for i in range((16 if quick else 100) * 5):
+    for i in range((12 if quick else 80) * 5):
         law = ["l1", "l2", "l3", "l4", "gen"][i % 5]
         mtype = ["merge3", "weave", "lca"][(i // 5) % 3]
         base = gen_tree(rng, fids)
